@@ -30,7 +30,7 @@ TECHNIQUE = (
     "cache-reset model validated against fresh interpreters"
 )
 LEVEL_TEXT = (
-    "47 calls (einsum, array_contract, array_contract_path/tree/expression, "
+    "49 calls (einsum, array_contract, array_contract_path/tree/expression, "
     "einsum_expression, expression reuse on new arrays) differing pairwise "
     "in one cache-key component (output order, one size, optimize as preset "
     "/ tuple path / list path / nested-list path / edge path, "
@@ -207,6 +207,20 @@ def build_pool():
             base_in, ("a", "d"), size_dict={"a": 2, "b": 7, "c": 2, "d": 7},
             optimize="optimal", cache=cache), 3),
         want=None)
+    # two size dicts with the same sequence of VALUES (2, 100, 3, 2) but the
+    # big dimension on a different index: different optimal paths
+    P["path-optimal-sizedict-b-big"] = dict(
+        fn=lambda cache: path_obs(ctg.array_contract_path(
+            base_in, ("a", "d"),
+            size_dict={"a": 2, "b": 100, "c": 3, "d": 2},
+            optimize="optimal", cache=cache), 3),
+        want=["path", [[0, 1], [0, 1]]])
+    P["path-optimal-sizedict-c-big-same-values"] = dict(
+        fn=lambda cache: path_obs(ctg.array_contract_path(
+            base_in, ("a", "d"),
+            size_dict={"a": 2, "c": 100, "b": 3, "d": 2},
+            optimize="optimal", cache=cache), 3),
+        want=["path", [[1, 2], [0, 1]]])
     P["path-nested-list"] = dict(
         fn=lambda cache: path_obs(ctg.array_contract_path(
             base_in, ("a", "d"), sd, optimize=[[0, 2], [0, 1]],
